@@ -283,6 +283,11 @@ func (g *c15Gen) client(slot, pi, di int) []Action {
 	if trunc || rver != 5 || rsv != 0 || cmd != 1 || !q.AtypKnown {
 		return early()
 	}
+	if r.Intn(6) == 0 {
+		// fault "stalled goroutine": the proxy's handler for this client gets no CPU from the
+		// moment it has queued the CONNECT for the agent until the agent has fetched and answered it
+		s[len(s)-1].T = "stall"
+	}
 	if answer != 0 && r.Intn(5) == 0 {
 		// the client gives up and leaves after the agent was told to connect and before the agent
 		// reports that it could not: the socket must be forgotten all the same
@@ -660,6 +665,10 @@ type c15State struct {
 	seq   int
 	obSeen int
 	stop  bool
+	// goroutines frozen by a "stall" fault and the number of check-ins of stallDem after which they run again
+	stalled   []*simrt.Task
+	stallLeft int
+	stallDem  int
 }
 
 func (st *c15State) v(rule, disc, detail string) {
@@ -789,6 +798,11 @@ func (c15) Exec(p *Plan, dir string) *Result {
 			st.inject(a)
 		}
 		st.afterSettle(w.Sim.Settle())
+		if st.stalled != nil && st.stallLeft <= 0 && len(res.Violations) == 0 {
+			w.Sim.Release(st.stalled)
+			st.stalled = nil
+			st.afterSettle(w.Sim.Settle())
+		}
 		if os.Getenv("C15_DEBUG") != "" {
 			fmt.Fprintln(os.Stderr, "action", i, a.Kind, "step", w.Sim.Step, "spinparks", w.Sim.Stats.SpinParks)
 		}
@@ -800,6 +814,11 @@ func (c15) Exec(p *Plan, dir string) *Result {
 	if len(res.Violations) == 0 && !w.Sim.Exited && !st.stop {
 		w.Sim.SetAction(len(p.Actions))
 		st.par = false
+		if st.stalled != nil {
+			w.Sim.Release(st.stalled)
+			st.stalled = nil
+			st.afterSettle(w.Sim.Settle())
+		}
 
 		for k := 0; k < 3 && len(res.Violations) == 0 && !st.stop; k++ {
 			for di := range st.dem {
@@ -909,7 +928,14 @@ func (st *c15State) inject(a Action) {
 		}
 		st.push(c.conn, a.X, a.L)
 		c.state = c15ReqSent
-		res.FP("req", q.Complete, q.Cmd, q.Atyp, q.AddrLen, len(a.L), a.D)
+		if a.T == "stall" && !st.par && st.stalled == nil && q.Complete {
+			if w.Sim.RunToSite("(*Agent).AddJobToQueue", 1, 20000) {
+				st.stalled = w.Sim.Stall(w.Sim.SiteTask)
+				st.stallLeft, st.stallDem = 2, c.di
+				res.Probe("fault:proxy-handler-stalled-after-queueing-connect")
+			}
+		}
+		res.FP("req", q.Complete, q.Cmd, q.Atyp, q.AddrLen, len(a.L), a.D, a.T)
 	case "c-pipe":
 		c := st.cli[a.A]
 		if c == nil || c.state != c15Open || c.clientClosed || len(a.X) == 0 {
@@ -1054,6 +1080,9 @@ func (st *c15State) inject(a Action) {
 		res.FP("rpf-close")
 	case "checkin":
 		st.checkin(st.dem[a.B%nd])
+		if st.stalled != nil && a.B%nd == st.stallDem {
+			st.stallLeft--
+		}
 	}
 }
 
